@@ -253,6 +253,8 @@ struct nm_signal {
 	const char *nm;
 };
 
+static struct nm_periodic late_pb;
+static void mk_periodic(struct ev_loop*, struct nm_periodic*, const char*, double, int);
 static struct nm_periodic *victim;
 static int res_unordered;
 static int do_brk;
@@ -314,9 +316,11 @@ p_cb(struct ev_loop *l, ev_periodic *w, int r)
 		ev_break(l, EVBREAK_ALL);
 	}
 	if (p->mode == 5) {
-		/* what echsd does before it spawns an executor */
+		/* what echsd does before it spawns an executor; PB is
+		 * started overdue (by construction, not by waiting: the trace
+		 * must not depend on how fast the machine is) */
 		ev_loop_fork(l);
-		busy(0.1);
+		mk_periodic(l, &late_pb, "PB", 1.0, 0);
 	}
 }
 
@@ -529,16 +533,15 @@ scn_break(void)
 static void
 scn_loop_fork(void)
 {
-/* PA's callback calls ev_loop_fork() and takes 100 ms, PB falls due in the
- * meantime.  The next iteration begins by rescheduling all periodics with
- * the current time (PB's expiry is never delivered) and ends with doing so
- * once more, after all other callbacks. */
+/* PA's callback calls ev_loop_fork() and starts PB, overdue.  The next
+ * iteration begins by rescheduling all periodics with the current time
+ * (PB's expiry is never delivered, nor is PC's) and ends with doing so once
+ * more, after all other callbacks. */
 	struct ev_loop *l = fresh_loop();
-	struct nm_periodic pa, pb, pc;
+	struct nm_periodic pa, pc;
 	struct nm_timer t1;
 
 	mk_periodic(l, &pa, "PA", 1.0, 5);
-	mk_periodic(l, &pb, "PB", -0.05, 0);
 	res_unordered = 1;
 	settle();
 	ev_run(l, EVRUN_ONCE);
